@@ -56,7 +56,6 @@ func main() {
 	t0 := time.Now()
 	work := filepath.Join(verifDir, ".work", fmt.Sprintf("%s-%s-%d", *prop, *tier, os.Getpid()))
 	os.MkdirAll(work, 0755)
-	defer os.RemoveAll(work)
 
 	ld, err := loadProgram()
 	if err != nil {
@@ -68,12 +67,14 @@ func main() {
 
 	run := &propRun{prop: *prop, tier: *tier, seed: seed, work: work, ld: ld, noReplay: *noReplay, verbose: *allViol, workers: *workers, crossCheck: *crossCheck || *tier == "thorough"}
 	for _, j := range jobs {
-		if *jobFilter != "" && !strings.Contains(j.Name, *jobFilter) {
+		if *jobFilter != "" && !(j.Name == *jobFilter || (strings.HasSuffix(*jobFilter, "*") && strings.HasPrefix(j.Name, strings.TrimSuffix(*jobFilter, "*")))) {
 			continue
 		}
 		run.runJob(j)
 	}
 	code := run.finish(time.Since(t0))
-	os.RemoveAll(work)
+	if os.Getenv("VCHECK_KEEP") == "" {
+		os.RemoveAll(work)
+	}
 	os.Exit(code)
 }
